@@ -37,51 +37,7 @@ func checkC17(w *World, r *Report) {
 	r.guard("R17.3", func() {
 		m := w.Method("schema", "list", "Validate")
 		fd, _ := w.FuncDecl(m)
-		pParam := paramObj(p, fd, 2)
-		ok := false
-		for i, s := range fd.Body.List {
-			is, isIf := s.(*ast.IfStmt)
-			if !isIf || is.Init == nil || i == 0 {
-				continue
-			}
-			as, isA := is.Init.(*ast.AssignStmt)
-			if !isA || len(as.Rhs) != 1 {
-				continue
-			}
-			ce, isC := as.Rhs[0].(*ast.CallExpr)
-			if !isC {
-				continue
-			}
-			se, isS := ce.Fun.(*ast.SelectorExpr)
-			if !isS || se.Sel.Name != "Validate" || len(ce.Args) != 3 {
-				continue
-			}
-			// third argument mentions p[0]
-			usesHead := false
-			ast.Inspect(ce.Args[2], func(x ast.Node) bool {
-				if ix, ok := x.(*ast.IndexExpr); ok && objOfIdent(p, ix.X) == pParam {
-					usesHead = true
-				}
-				return true
-			})
-			// receiver is children[key] where key from Keys()
-			recvOK := false
-			ro := objOfIdent(p, se.X)
-			ast.Inspect(fd.Body, func(x ast.Node) bool {
-				if a2, ok := x.(*ast.AssignStmt); ok && len(a2.Lhs) == 1 && ro != nil && objOfIdent(p, a2.Lhs[0]) == ro {
-					if ix, ok := a2.Rhs[0].(*ast.IndexExpr); ok {
-						if f := fieldOfSel(p, ix.X); f != nil && nm(f) == "children" {
-							recvOK = true
-						}
-					}
-				}
-				return true
-			})
-			rets := returnsIn(is.Body)
-			if usesHead && recvOK && len(rets) == 1 && objOfIdent(p, rets[0].Results[0]) == objOfIdent(p, as.Lhs[0]) {
-				ok = true
-			}
-		}
+		ok := c17KeyValidated(w, w.SSAFunc(m)) == ""
 		r.Check(ok, "R17.3", "list.Validate validates the key token", fd.Pos(), "top-level `if err := key.Validate(ctx, path, {p[0]}); err != nil { return err }`", "the key value is validated only on some paths (e.g. only when the path ends on the entry): a corrupted key in a longer path is accepted")
 	})
 
@@ -267,6 +223,99 @@ func checkC17(w *World, r *Report) {
 	})
 }
 
+// c17KeyValidated: every way out of list.Validate (helpers that are handed
+// the work included) that is taken with tokens remaining either returns the
+// error of the key leaf's Validate on the first token, or is taken only when
+// that call returned nil.
+func c17KeyValidated(w *World, f *ssa.Function) string {
+	if f == nil || len(f.Params) != 4 || len(ssaLoops(f)) > 0 {
+		return "shape not recognised"
+	}
+	pP := f.Params[3]
+	sym := NewSym(w)
+	sym.Expand = true
+	sym.ExpandReturns = true
+	isHead := func(v ssa.Value, ctx *symCtx) bool { // p[0]
+		for _, o := range sym.Origins(v, ctx, 0) {
+			ld, ok := o.v.(*ssa.UnOp)
+			if !ok || ld.Op != token.MUL {
+				return false
+			}
+			ia, ok := ld.X.(*ssa.IndexAddr)
+			if !ok || sym.Resolve(ia.X, o.ctx) != ssa.Value(pP) {
+				return false
+			}
+			if zero, ok := intConstOf(ia.Index); !ok || zero != 0 {
+				return false
+			}
+		}
+		return true
+	}
+	// the key call, in the method or in a helper it calls
+	var keyCall *ssa.Call
+	var visit func(fn *ssa.Function, ctx *symCtx, depth int)
+	visit = func(fn *ssa.Function, ctx *symCtx, depth int) {
+		for _, b := range fn.Blocks {
+			for _, in := range b.Instrs {
+				c, ok := in.(*ssa.Call)
+				if !ok {
+					continue
+				}
+				if c.Call.IsInvoke() && nm(c.Call.Method) == "Validate" && len(c.Call.Args) == 3 {
+					sl, isSl := c.Call.Args[2].(*ssa.Slice)
+					lk, isLk := c.Call.Value.(*ssa.Lookup)
+					if isSl && isLk && loadedFieldName(lk.X) == "children" {
+						if lits := sliceLiteral(sl); len(lits) == 1 && isHead(lits[0], ctx) {
+							keyCall = c
+						}
+					}
+					continue
+				}
+				if g := c.Call.StaticCallee(); g != nil && depth < 2 && g != fn && g.Blocks != nil && len(ssaLoops(g)) == 0 && strings.HasPrefix(pkgPathOf(g), modPath) && g.Pkg == f.Pkg {
+					visit(g, &symCtx{call: c, parent: ctx}, depth+1)
+				}
+			}
+		}
+	}
+	visit(f, nil, 0)
+	if keyCall == nil {
+		return "no call of the key leaf's Validate on the first token"
+	}
+	isKey := func(v ssa.Value, ctx *symCtx) bool {
+		os := sym.Origins(v, ctx, 0)
+		for _, o := range os {
+			if o.v != ssa.Value(keyCall) {
+				return false
+			}
+		}
+		return len(os) > 0
+	}
+	classify := func(a *pcAtom) string {
+		if bo, ok := a.v.(*ssa.BinOp); ok && a.subj != "" && a.set.equal(isetOf(0)) {
+			for _, side := range []ssa.Value{bo.X, bo.Y} {
+				if arg, ok := isLenCall(side); ok && sym.Resolve(arg, a.ctx) == ssa.Value(pP) {
+					return "empty"
+				}
+			}
+		}
+		if a.op == token.EQL && a.x != nil && a.y != nil {
+			if (isNilConst(a.y) && isKey(a.x, a.ctx)) || (isNilConst(a.x) && isKey(a.y, a.ctx)) {
+				return "keyok"
+			}
+		}
+		return ""
+	}
+	for _, row := range sym.retTable(f, 0) {
+		if isKey(row.val, row.ctx) {
+			continue // the key leaf's own verdict
+		}
+		if msg := pcImplies(row.cond, classify, func(env map[string]bool) bool { return env["empty"] || env["keyok"] }); msg != "" {
+			return "an exit is taken with tokens remaining whatever the key leaf says: " + msg
+		}
+	}
+	return ""
+}
+
 func c17Arms(w *World, r *Report) {
 	for _, k := range []string{"tree", "container", "list", "listEntry", "choice", "ycase", "leaf", "leafList"} {
 		m := w.TryMethod("schema", k, "Validate")
@@ -280,6 +329,7 @@ func c17Arms(w *World, r *Report) {
 			continue
 		}
 		sym := NewSym(w)
+		sym.ExpandReturns = true // `return n.validateRest(ctx, path, p)`: the helper's exits are this method's
 		ctxP, pP := f.Params[1], f.Params[3]
 		lenOf := func(a *pcAtom) (ssa.Value, bool) {
 			bo, ok := a.v.(*ssa.BinOp)
@@ -288,7 +338,7 @@ func c17Arms(w *World, r *Report) {
 			}
 			for _, side := range []ssa.Value{bo.X, bo.Y} {
 				if arg, ok := isLenCall(side); ok {
-					return arg, true
+					return sym.Resolve(arg, a.ctx), true
 				}
 			}
 			return nil, false
@@ -311,7 +361,7 @@ func c17Arms(w *World, r *Report) {
 				}
 			}
 			if call, ok := a.v.(*ssa.Call); ok {
-				if call.Call.IsInvoke() && nm(call.Call.Method) == "AllowIncompletePaths" && call.Call.Value == ssa.Value(ctxP) {
+				if call.Call.IsInvoke() && nm(call.Call.Method) == "AllowIncompletePaths" && sym.Resolve(call.Call.Value, a.ctx) == ssa.Value(ctxP) {
 					return "inc"
 				}
 				if g := call.Call.StaticCallee(); g != nil && nm(g) == "Presence" {
@@ -352,7 +402,7 @@ func c17Arms(w *World, r *Report) {
 				default:
 					// the rest of the tokens: x[1:] of the tokens still to go
 					if sl, ok := call.Call.Args[2].(*ssa.Slice); ok && sl.High == nil {
-						if one, ok := intConstOf(sl.Low); ok && one == 1 && (sl.X == ssa.Value(pP) || isRest(sl.X)) {
+						if one, ok := intConstOf(sl.Low); ok && one == 1 && (sym.Resolve(sl.X, row.ctx) == ssa.Value(pP) || isRest(sym.Resolve(sl.X, row.ctx))) {
 							deleg = true
 						}
 					}
